@@ -43,8 +43,23 @@ fn check_seq(prop: &'static str, tier: Tier) -> CheckOutcome {
     let mut exhaustive = true;
     let mut mach: Option<String> = None;
     let mut distinct_outcomes = 0u64;
+    let mut socket_validated = 0u64;
     for cfg in &cfgs {
-        let rep = if prop == "C19" { pair::explore_pair(cfg, nthreads()) } else { seq::explore_seq(cfg, nthreads(), 0) };
+        let tree_depth = if tier == Tier::Quick { 2 } else { 3 };
+        let rep = if prop == "C19" { pair::explore_pair(cfg, nthreads()) } else { seq::explore_seq(cfg, nthreads(), tree_depth) };
+        // binding: spanning-tree histories replayed byte-for-byte through a real TCP server
+        let (bound_n, bound_bad, bound_err) = if prop == "C19" { (0, vec![], None) } else { seq::bind_to_socket(cfg, &rep.tree, nthreads()) };
+        socket_validated += bound_n;
+        if let Some(e) = bound_err {
+            mach = Some(format!("{} (socket binding): {}", cfg.name, e));
+        }
+        for (sig, what) in bound_bad {
+            violations.push(Violation {
+                signature: sig,
+                what,
+                replay: json!({"engine": "seq-socket-binding", "config": cfg.name}),
+            });
+        }
         if let Some(e) = &rep.machinery_error {
             mach = Some(format!("{}: {}", cfg.name, e));
         }
@@ -105,6 +120,7 @@ fn check_seq(prop: &'static str, tier: Tier) -> CheckOutcome {
         "states": states,
         "transitions": transitions,
         "traces_validated_against_impl": executions,
+        "histories_replayed_through_real_tcp_server": socket_validated,
         "samples": samples,
         "exhaustive": exhaustive,
         "distinct_outcomes": distinct_outcomes,
@@ -187,7 +203,52 @@ fn replay(path: &str) -> i32 {
                 }
             }
         }
-        _ => {
+        Some("sched") => {
+            let prop = v["property"].as_str().unwrap_or("");
+            let tier = if v["tier"].as_str() == Some("thorough") { Tier::Thorough } else { Tier::Quick };
+            let fams = match prop {
+                "C03" => props_sched::c03_families(tier),
+                "C04" => props_sched::c04_families(tier),
+                "C16" => props_sched::c16_families(tier),
+                "C14" => props_sched::c14_families(tier),
+                _ => vec![],
+            };
+            let fam = match fams.iter().find(|f| Some(f.name.as_str()) == v["family"].as_str()) {
+                Some(f) => f,
+                None => {
+                    eprintln!("unknown family");
+                    return 2;
+                }
+            };
+            let idx = v["program_index"].as_u64().unwrap_or(0) as usize;
+            let prog = &fam.programs[idx];
+            let choices: Vec<usize> = v["choices"].as_array().map(|a| a.iter().map(|c| c.as_u64().unwrap() as usize).collect()).unwrap_or_default();
+            println!("program: {}", prog.describe());
+            println!("schedule (choice list): {:?}", choices);
+            sut::set_quiet(true);
+            sched::warm_up();
+            match sched::replay_schedule(prog, fam.opts, &choices) {
+                Ok(Some((clause, detail))) => {
+                    println!("{}: {}", clause, detail);
+                    println!("replayed twice with identical observations");
+                    1
+                }
+                Ok(None) => {
+                    println!("no violation on this schedule; replayed twice with identical observations");
+                    0
+                }
+                Err(e) => {
+                    eprintln!("MACHINERY-ERROR: {}", e);
+                    2
+                }
+            }
+        }
+        Some(other) => {
+            println!("engine {}: this artefact names the failing case; re-run `./run check {}` to reproduce it (deterministic enumeration)", other, v["property"].as_str().unwrap_or("<id>"));
+            println!("{}", serde_json::to_string_pretty(&v).unwrap());
+            0
+        }
+        None => {
             eprintln!("unknown engine in replay file");
             2
         }
